@@ -214,6 +214,48 @@ def conc_roundtrip(P, w):
     return res
 
 
+def sym_sequence(P, ex):
+    """Two values of different kinds carrying the *same* payload bytes are converted one after the other in one process."""
+    from vf import bvx
+
+    tname, kinds = P['type'], P['kinds']
+    with boundary(ex, [(k, None) for k in kinds]) as b:
+        first = b.payload(kinds[0])
+        cls = _type(tname)
+        for k in kinds:
+            pl = b.payload(k)
+            ex.assume(pl == first)
+            v = cls.from_value(b.text(k))
+            opt = v.to_micheline_value(mode='optimized')
+            b.recorded.clear()
+            try:
+                back = cls.from_micheline_value(opt)
+            except (bvx.Abort, bvx.Found, bvx.Inconclusive):
+                raise
+            except Exception as e:  # noqa
+                ex.fail_here(f'reading the optimized form of {k} back failed: {type(e).__name__}: {e}')
+            ex.check(_kind_of(back.value) == k, f'kind {k} read back as {_kind_of(back.value)} after converting {kinds[0]}')
+            ex.check(b.recorded and b.recorded[-1][2] == pl, 'payload survives')
+
+
+def conc_sequence(P, w):
+    import base58
+
+    tname, kinds = P['type'], P['kinds']
+    cls = _type(tname)
+    payload = bytes(w.get(f'payload:{kinds[0]}', bytes(20)))
+    out = []
+    for k in kinds:
+        h, L, Pb, nn = _row(k)
+        text = base58.b58encode_check(Pb + payload).decode()
+        try:
+            back = cls.from_micheline_value(cls.from_value(text).to_micheline_value(mode='optimized')).value
+        except Exception as e:  # noqa
+            back = f'{type(e).__name__}: {e}'
+        out.append([text, back])
+    return {'ok': all(a == b for a, b in out), 'observed': out}
+
+
 def obligations(tier):
     obs = []
     t = 120
@@ -235,4 +277,9 @@ def obligations(tier):
         for kind in SIG_KINDS:
             add(f'signature/{kind}/{mode}', {'type': 'signature', 'kind': kind, 'mode': mode}, f'all payloads of {kind}')
         add(f'chain_id/Net/{mode}', {'type': 'chain_id', 'kind': 'Net', 'mode': mode}, 'all 4-byte chain ids')
+    for tname, kinds in (('address', ['tz1', 'tz2']), ('address', ['tz2', 'KT1', 'sr1']), ('address', ['KT1', 'tz1', 'tz3']),
+                         ('key_hash', ['tz1', 'tz4', 'tz2']), ('key_hash', ['tz3', 'tz1'])):
+        obs.append(Ob(f'sequence/{tname}/' + '+'.join(kinds), 'bvx', sym_sequence, conc_sequence, {'type': tname, 'kinds': kinds}, timeout=t,
+                      opts={'W': 32}, bounds='values of several kinds with identical payload bytes converted in sequence in one process',
+                      targets=TARGETS, stubs=STUBS))
     return obs
